@@ -141,6 +141,10 @@ def inductive_loop(ip, frame, st, spec, seq, tag=None):
     k = ctx.fresh('k', Int) if is_for else None
     if is_for:
         ctx.assume(k >= 0)
+    iter_ref = seq[3].get('list_ref') if (is_for and seq is not None and len(seq) > 3) else None
+    if iter_ref is not None and spec.heap != 'unchanged':
+        # the list being iterated is not modified by the loop: assumed at the head, proved at the end of every iteration
+        ctx.assume(z3.And(ctx.heap.llen(iter_ref) == heap0.llen(iter_ref), ctx.heap.lels(iter_ref) == heap0.lels(iter_ref)))
     view = LoopView(ip, frame, frame.env, ctx.heap, env0, heap0, k)
     for label, f in _labelled(spec.invariant(view)):
         ctx.assume(f)
@@ -193,6 +197,10 @@ def inductive_loop(ip, frame, st, spec, seq, tag=None):
     if not spec.trusted_invariant:
         for label, f in _labelled(spec.invariant(view2)):
             ctx.oblige(f'{tag}.preserve.{label}', f, kind='loop-preserve')
+    if iter_ref is not None and spec.heap != 'unchanged':
+        ctx.oblige(f'{tag}.iterated-list-unmodified',
+                   z3.And(ctx.heap.llen(iter_ref) == heap_head.llen(iter_ref), ctx.heap.lels(iter_ref) == heap_head.lels(iter_ref)),
+                   kind='loop-frame')
     if spec.heap == 'unchanged':
         h, g = ctx.heap, heap_head
         ctx.oblige(f'{tag}.heap-unchanged', z3.And(h.LEN == g.LEN, h.ELS == g.ELS, h.HAS == g.HAS, h.VAL == g.VAL,
